@@ -26,6 +26,8 @@ CaseViol(e) ==
   \cup (IF inc # {} /\ ~(\E p \in rs : p \in inc) THEN {"C10_reader_side_no_truthful_incompatible_qos_event"} ELSE {})
   \cup (IF inc # {} /\ ~(\E p \in ws : p \in inc) THEN {"C10_writer_side_no_truthful_incompatible_qos_event"} ELSE {})
   \cup (IF inc = {} /\ ("Matched" \notin rs \/ "Matched" \notin ws) THEN {"C10_no_matched_event"} ELSE {})
+  \* each side learnt the other's QoS from a serialised SEDP announcement
+  \cup (IF ~e.wire_ok THEN {"C10_announced_qos_not_readable"} ELSE {})
 
 Step ==
   /\ l <= Len(Rec)
